@@ -145,8 +145,19 @@ func escUnit(c uint16) string {
 	return fmt.Sprintf("\\u%04x", c)
 }
 
+// textFeatures: the token classes and other characters a text consists of.
+func textFeatures(t jm.Str, f map[string]bool) {
+	abstractTokens(t, func(tok string) { f[tok] = true })
+}
+
 func abstractText(t jm.Str) string {
 	var sb strings.Builder
+	abstractTokens(t, func(tok string) { sb.WriteString(tok) })
+	return sb.String()
+}
+
+func abstractTokens(t jm.Str, emit func(string)) {
+	sb := emitter(emit)
 	i := 0
 	for i < len(t) {
 		c := t[i]
@@ -174,8 +185,11 @@ func abstractText(t jm.Str) string {
 			i++
 		}
 	}
-	return sb.String()
 }
+
+type emitter func(string)
+
+func (e emitter) WriteString(s string) { e(s) }
 
 func strClass(lit jm.Str) string {
 	feat := map[string]bool{}
